@@ -37,9 +37,10 @@ Theorem C14_outcome : forall c init n0, WellFormed c init n0 -> forall sch,
 Proof. intros c init n0 (H1 & H2 & H3 & H4). exact (quiescent_outcome c init n0 H1 H2 H3 H4). Qed.
 Print Assumptions C14_outcome.
 
-(* ... so an append issued after the others have finished always succeeds *)
+(* ... so an append issued after the others have finished (whether they succeeded, were refused, or failed
+   in the middle of the critical section) always succeeds *)
 Theorem C14_later_append_succeeds : forall c init n0, WellFormed c init n0 -> forall sch t,
-  let s := run c sch (init_st init) in quiescent s -> pcs s t = PStart ->
+  let s := run c sch (init_st init) in quiescent s -> pcs s t = PStart -> bad c t = false ->
   exists s', replay c [t; t; t; t; t; t; t] s = Some s' /\
              pcs s' t = PDoneOk (S (n0 + length (log s))) /\ log s' = log s ++ [t].
 Proof. intros c init n0 (H1 & H2 & H3 & H4). exact (later_append_succeeds c init n0 H1 H2 H3 H4). Qed.
